@@ -28,13 +28,15 @@ class VectorSet:
         self.vectors = []     # dicts; v["inner"] = inner name
         self.stats = []
 
-    def add_run(self, inner_name, res):
+    def add_run(self, inner_name, res, pin=False):
         for tag, body in res.lines:
             if tag == "INNER":
                 self.inner[inner_name] = json.loads(body)
             elif tag == "VEC":
                 v = json.loads(body)
                 v["inner"] = inner_name
+                if pin:
+                    v["pin"] = True       # never sampled away by the C++ legs
                 self.vectors.append(v)
         self.stats.append(res.stats)
 
@@ -75,7 +77,8 @@ def _run_parallel(vs, runs, sd):
     for inner, c, sim in runs:
         res = run_tlc("WireMC", c, invariants=WIRE_INVARIANTS, prefix=("VEC", "INNER"),
                       simulate=sim, depth=400, seed=sd)
-        vs.add_run(inner, res)
+        # the single-member run over every scalar type and form is small and basic: always kept
+        vs.add_run(inner, res, pin=(str(c.get("MaxMembers")) == "1" and sim is None and "ScalarsAll" in str(c.get("Scalars"))))
 
 
 def generate_layouts(tier):
